@@ -4,7 +4,7 @@ P=$1; SRCS=$2
 D="-DHAVE_ACCEPT4 -DHAVE_EXPLICIT_BZERO -DHAVE_MEMMEM -DHAVE_MEMRCHR -DHAVE_PIPE2 -DHAVE_POSIX_SPAWN_FILE_ACTIONS_ADDCLOSEFROM_NP -DHAVE_PTHREAD_SETNAME_NP -DHAVE_REALLOCARRAY -DHAVE_SOCK_CLOEXEC -DHAVE_SOCK_NONBLOCK -DHAVE_STRNCASECMP -DLINUX -D_GNU_SOURCE -D__USE_GNU=1"
 O=/tmp/${SEEDPFX:-seed}-$P-out
 for which in patched clean; do
-  T=/tmp/${SEEDPFX:-seed}-$P; [ $which = clean ] && T=/repo
+  T=/tmp/${SEEDPFX:-seed}-$P; [ $which = clean ] && T=${CLEANTREE:-/repo}
   files=""; for s in $SRCS; do files="$files $T/$s"; done
   cc -O2 -pthread $D -I$T/include $O/demo.c $files -o $O/demo_$which -w 2>$O/build_$which.log || { echo "$P $which: BUILD FAILED"; head -5 $O/build_$which.log; continue; }
   timeout 120 $O/demo_$which > $O/run_$which.log 2>&1; echo "$P $which: exit=$? $(tail -1 $O/run_$which.log | cut -c1-120)"
